@@ -4,8 +4,11 @@
 // lines:  rplan <value> <upperhex|->            -> reply <value> | send <keyhex|-> <burst> <count> <period> <qty>
 //         rfinish <ans>                         -> <value>
 //         rmetric <value> <upperhex|-> <ans|->  -> <allowed|denied> <keyhex|->|nokey
+//         tstep <max> <before> <keyhex> <after> -> ok     (only after a DENIED THROTTLE whose key is longer
+//                                                          than 256 bytes: what the denied-keys table did)
 use crate::resp::{dec, Dec};
 use crate::util::*;
+use crate::metrics::table_text;
 use crate::val::{bulk, hx, show, upper_of};
 use std::sync::atomic::Ordering::SeqCst;
 use std::sync::Arc;
@@ -50,6 +53,31 @@ pub fn counters(m: &Metrics) -> Counters {
         denied: m.requests_denied.load(SeqCst),
         errors: m.requests_errors.load(SeqCst),
     }
+}
+
+/// `max_denied_keys` of the `Metrics` this mode (and `replay`) runs against
+pub const CMD_MAX_DENIED: usize = 50;
+
+/// Keys that are hostile to the DENIED-key tracking (`Metrics::record_request_with_key(_, false, key)`,
+/// its 256-byte limit, the `/metrics` label escaping): a request pair burst 1, 1 per 3600 s on each of
+/// them is answered allowed, then denied.  `tag` (ASCII, at most 40 bytes) and `idx` (< 1000) make the
+/// keys of different uses distinct without changing their shape.
+pub fn hostile_keys(tag: &str, idx: u32) -> Vec<(&'static str, String)> {
+    assert!(tag.is_ascii() && tag.len() <= 40 && idx < 1000);
+    let pad = |n: usize| format!("{tag}{}", "x".repeat(n - tag.len()));
+    // a 2-byte character of its own per use (U+00E9 `é` for idx 0)
+    let two = char::from_u32(0xE9 + idx).unwrap();
+    assert_eq!(two.len_utf8(), 2);
+    let v = vec![
+        ("2-byte char across byte 256", format!("{}é0123456789", pad(255))),
+        ("2-byte char across byte 64, > 256 bytes", format!("{}é{}", pad(63), "y".repeat(300))),
+        ("256 ASCII bytes", pad(256)),
+        ("257 ASCII bytes", pad(257)),
+        ("300 x 2-byte char", two.to_string().repeat(300)),
+        ("quote backslash newline TAB", format!("{tag}\"q\\b\nnl\ttab")),
+    ];
+    debug_assert!(v[0].1.len() == 267 && !v[0].1.is_char_boundary(256) && v[1].1.len() == 365 && !v[1].1.is_char_boundary(64));
+    v
 }
 
 /// one numeric argument: (RESP value, Some(n) if Rust's i64 parse accepts it)
@@ -298,32 +326,76 @@ pub async fn exec_command(v: &RespValue, handle: &RateLimiterHandle, metrics: &A
         },
         _ => None,
     };
+    // A denied THROTTLE whose key is longer than 256 bytes: the model's `rmetric` answer names the key
+    // HANDED to the tracker; the tracker then ignores it (`tstep` in the model).  The table is the only
+    // thing observable here, so the two halves are reported as: the `rmetric` key = the key whose
+    // count moved, or - when NO count moved and the table is unchanged - the over-long THROTTLE key;
+    // plus a `tstep` line with the table before / after, which the model accepts only if the table did
+    // what it must do with that key (nothing).  A tracker that counts an over-long key, a cut-down
+    // copy of it, or some other key shows up in one of the two lines.
+    let long_denied = match &throttle_key {
+        Some(k) if da == 0 && dd == 1 && k.len() > 256 => Some(k.clone()),
+        _ => None,
+    };
     let cls = if da == 1 && dd == 0 {
         format!("allowed {}", throttle_key.as_ref().map(|k| hx(k.as_bytes())).unwrap_or("nokey".into()))
     } else if da == 0 && dd == 1 {
-        format!("denied {}", moved_key.as_ref().map(|k| hx(k.as_bytes())).unwrap_or("nokey".into()))
+        let shown = match (&moved_key, &long_denied) {
+            (Some(k), _) => hx(k.as_bytes()),
+            (None, Some(k)) if tab_before == tab_after => hx(k.as_bytes()),
+            _ => "nokey".into(),
+        };
+        format!("denied {shown}")
     } else {
         if da == 0 && dd == 0 { "uncounted".to_string() } else { format!("unclassified allowed+{da} denied+{dd}") }
     };
     if reply.is_some() {
         lines.push((format!("rmetric {vtxt} {up} {ans}"), cls));
+        if let Some(k) = &long_denied {
+            lines.push((format!("tstep {CMD_MAX_DENIED} {} {} {}", table_text(&tab_before), hx(k.as_bytes()), table_text(&tab_after)), "ok".into()));
+        }
     }
     (Executed { reply, log, lines }, before, after, moved_key)
 }
 
 pub fn run(seed: u64, n: usize, out: &mut Out) {
+    // the handler runs with the most verbose logging enabled (see `install_trace_capture`)
+    crate::conn::install_trace_capture();
     let rt = tokio::runtime::Builder::new_current_thread().enable_all().build().unwrap();
     let mut rng = Rng::new(seed);
     let batches = n.max(1);
     rt.block_on(async {
-        for _ in 0..batches {
-            let metrics = Arc::new(Metrics::builder().max_denied_keys(50).build());
+        for batch in 0..batches {
+            let metrics = Arc::new(Metrics::builder().max_denied_keys(CMD_MAX_DENIED).build());
             let store = PeriodicStore::builder().capacity(1000).cleanup_interval(std::time::Duration::from_secs(60)).build();
             let handle = RateLimiterActor::spawn_periodic(rng.pick(&[1usize, 2, 100]), store, Arc::clone(&metrics));
             let keys: Vec<String> = (0..3).map(|i| format!("k{}_{}", i, rng.below(1000))).collect();
             let mut batch_replay: Vec<String> = vec![];
-            for _ in 0..50 {
-                let (v, intent) = gen_command(&mut rng, &keys);
+            // the 50 generated commands; every 4th batch also carries the hostile-key pairs: THROTTLE
+            // <key> 1 1 3600 twice IN A ROW (first allowed, second DENIED = the denied-key tracking path
+            // runs with that key), each pair at a seed-chosen place among the other commands
+            let mut units: Vec<Vec<(RespValue, Intent, Option<&'static str>)>> = (0..50)
+                .map(|_| {
+                    let (v, intent) = gen_command(&mut rng, &keys);
+                    vec![(v, intent, None)]
+                })
+                .collect();
+            if batch % 4 == 0 {
+                for (what, key) in hostile_keys(&format!("hk{batch}_"), (batch % 1000) as u32) {
+                    let mut pair = vec![];
+                    for half in ["hostile-1st", "hostile-2nd"] {
+                        let mut xs = vec![bulk(&throttle_name(&mut rng)), bulk(&key), num_arg(&mut rng, 1), num_arg(&mut rng, 1), num_arg(&mut rng, 3600)];
+                        if rng.chance(1, 2) {
+                            xs.push(num_arg(&mut rng, 1));
+                        }
+                        pair.push((RespValue::Array(xs), Intent::Forward(key.clone(), 1, 1, 3600, 1), Some(half)));
+                    }
+                    let _ = what;
+                    let at = rng.below(units.len() as u64 + 1) as usize;
+                    units.insert(at, pair);
+                }
+            }
+            for (v, intent, hostile) in units.into_iter().flatten() {
                 let (ex, before, after, _moved) = exec_command(&v, &handle, &metrics).await;
                 let vtxt = show(&v);
                 out.note_case(&format!("{vtxt}"));
@@ -428,6 +500,21 @@ pub fn run(seed: u64, n: usize, out: &mut Out) {
                                 }
                             }
                         }
+                    }
+                }
+                // --- the hostile-key pair: answered allowed (remaining 0), then denied (remaining 0)
+                if let Some(half) = hostile {
+                    out.bump("hostile_key_commands");
+                    let want = if half == "hostile-1st" { " -> ok,1,1,0," } else { " -> ok,0,1,0," };
+                    if !(procs.len() == 1 && procs[0].contains(want)) {
+                        out.violation(
+                            "C12",
+                            format!("{half} THROTTLE <hostile key> 1 1 3600 on a fresh limiter: limiter log {procs:?}, reply {}; want the decision{want}..", show(reply)),
+                            these.clone(),
+                        );
+                    }
+                    if half == "hostile-2nd" {
+                        out.bump("hostile_keys_denied");
                     }
                 }
                 batch_replay.extend(these);
